@@ -281,6 +281,7 @@ def one(ctx: Ctx, cs, n_triples=110):
 
 
 def run(ctx: Ctx):
+    kpx.enable_bystanders(ctx)
     ctx.rule = ('documents of the C01 generator x random option triples (spine ids/types subsets, include/exclude sets, six encodings) + the '
                 'explicit-default variants. Oracle: the model applies category filter (closure from the documented tree, sub-part categories), '
                 'encoding view (separator stripping, signifier removal note by note, staff translation under the clef in force) and column '
